@@ -1259,8 +1259,11 @@ class FileSet:
                 # match to our path
                 # NB: using posixpath rather than os.path because
                 # AbstractFileSystem objects always work with / not \
+                # (with a trailing separator as all other search directories,
+                # otherwise the next level is globbed as "chunk*/" and parsed
+                # relative to the wrong base)
                 search_dirs = [
-                    (posixpath.join(old_dir, subdir_chunk), attr)
+                    (posixpath.join(old_dir, subdir_chunk, ""), attr)
                     for old_dir, attr in search_dirs
                 ]
                 continue
